@@ -89,6 +89,8 @@ type Exec struct {
 	headerEnv   map[*ssa.BasicBlock]*Env
 	closureVals map[Term]*ssa.MakeClosure
 	inlineN int
+	named    map[string]Val
+	callSeen map[string]bool
 }
 
 type loopInfo struct {
@@ -448,7 +450,7 @@ func (ex *Exec) enterLoop(h *ssa.BasicBlock, li *loopInfo, preds []*ssa.BasicBlo
 	}, ex.cur)
 	if li.spec != nil {
 		for k, inv := range li.spec.Invariants {
-			t, err := env.Bool(inv.E)
+			t, err := env.Goal(inv.E)
 			if err != nil {
 				unsup("loop %d invariant %d: %v", li.index, k, err)
 			}
@@ -725,7 +727,7 @@ func (ex *Exec) backEdge(from, h *ssa.BasicBlock) {
 	env := ex.loopEnv(h, func(phi *ssa.Phi) Val { return ex.phiEdgeVal(phi, h, from) }, ex.cur)
 	if li.spec != nil {
 		for _, inv := range li.spec.Invariants {
-			t, err := env.Bool(inv.E)
+			t, err := env.Goal(inv.E)
 			if err != nil {
 				unsup("loop %d invariant: %v", li.index, err)
 			}
@@ -733,7 +735,7 @@ func (ex *Exec) backEdge(from, h *ssa.BasicBlock) {
 		}
 		for _, st := range li.spec.Steps {
 			env.prev = ex.headerEnv[h]
-			t, err := env.Bool(st.E)
+			t, err := env.Goal(st.E)
 			if err != nil {
 				unsup("loop %d step: %v", li.index, err)
 			}
